@@ -2,7 +2,7 @@
 import ast
 
 from ..model import AnalysisError
-from ..codec import EncoderLayout, DecoderLayout
+from ..codec import EncoderLayout, DecoderLayout, pdu_classes, method_of
 from ..codec_cmp import compare_class
 from ..codec_prims import check_primitives
 
@@ -46,9 +46,7 @@ def check(ctx):
                    construct="mqtt.pdu.%s/%s" % (p.cls, p.what), msg=p.msg)
     ncls = 0
     nitems = 0
-    for name, c in mod.classes.items():
-        if "encode" not in c.methods or "decode" not in c.methods:
-            continue
+    for name, c in pdu_classes(prog).items():
         ncls += 1
         problems, stats, encm, decm = compare_class(prog, c)
         nitems += stats["items"]
@@ -78,10 +76,10 @@ def check(ctx):
                        construct="mqtt.pdu.%s/header-skip" % name, msg="the decoder reads the body without skipping the remaining-length field")
         # L6 determinism
         impure = sorted(x for x in encm.calls if x not in PURE and not x.endswith("Error"))
-        ctx.ob("L6", "%s.encode calls only pure helpers" % name, not impure, where="src/mqtt/pdu.py:%d" % c.methods["encode"].node.lineno,
+        ctx.ob("L6", "%s.encode calls only pure helpers" % name, not impure, where="src/mqtt/pdu.py:%d" % method_of(prog, c, "encode").node.lineno,
                function="mqtt.pdu.%s.encode" % name, construct="mqtt.pdu.%s/impure-call" % name, msg="encode() calls %s" % impure)
         ws = sorted(x for x in encm.writes_self if x != "encoded")
-        ctx.ob("L6", "%s.encode writes only self.encoded" % name, not ws, where="src/mqtt/pdu.py:%d" % c.methods["encode"].node.lineno,
+        ctx.ob("L6", "%s.encode writes only self.encoded" % name, not ws, where="src/mqtt/pdu.py:%d" % method_of(prog, c, "encode").node.lineno,
                function="mqtt.pdu.%s.encode" % name, construct="mqtt.pdu.%s/self-write" % name, msg="encode() assigns self.%s" % ws, nontrivial=False)
         for fn_, txt, node in getattr(encm, "iter_wrappers", []):
             ok = fn_ in ("list", "tuple")
